@@ -172,3 +172,18 @@ MUTANTS += [
  {"id": "c13-fock-chain", "prop": "C13", "file": "adcgen/expr_container.py", "old": "                seen.add(new)\n                new = sub[new]\n            sub[old] = new", "new": "                seen.add(new)\n                new = sub[new]\n            sub[old] = sub[old]"},
  {"id": "c13-symbolic-denom-sign", "prop": "C13", "file": _EO, "old": "                if pref is S.One:\n                    signs['+'].add(idx[0])\n                elif pref is S.NegativeOne:\n                    signs['-'].add(idx[0])", "new": "                if pref is S.One:\n                    signs['-'].add(idx[0])\n                elif pref is S.NegativeOne:\n                    signs['+'].add(idx[0])"},
 ]
+_SO = "adcgen/spatial_orbitals.py"
+MUTANTS += [
+ {"id": "c15-undo-lost", "prop": "C15", "file": _SO, "old": "        variant[\"a\"].difference_update(addition[\"a\"])\n", "new": ""},
+ {"id": "c15-clash-test", "prop": "C15", "file": _SO, "old": "        if idx_map[\"a\"] & variant[\"b\"] or idx_map[\"b\"] & variant[\"a\"]:\n            continue\n        # compute the indices which are added", "new": "        if idx_map[\"a\"] & variant[\"b\"]:\n            continue\n        # compute the indices which are added"},
+ {"id": "c15-undo-too-much", "prop": "C15", "file": _SO, "old": "        addition = {\"a\": tuple(idx for idx in idx_map[\"a\"]\n                               if idx not in variant[\"a\"]),", "new": "        addition = {\"a\": tuple(idx for idx in idx_map[\"a\"]),"},
+ {"id": "c15-variants-alias", "prop": "C15", "file": _SO, "old": "                        complete_variant = {\n                            sp: indices.copy() for sp, indices in idx_map.items()\n                        }", "new": "                        complete_variant = idx_map.copy()"},
+ {"id": "c15-no-table-dropped", "prop": "C15", "file": _SO, "old": "        if not term_spin_idx_maps:\n            combinations.append({\"a\": set(), \"b\": set()})", "new": "        pass"},
+ {"id": "c15-target-filter", "prop": "C15", "file": _SO, "old": "                    if idx in target_idx_spin_map and \\\n                            spin != target_idx_spin_map[idx]:", "new": "                    if idx in target_idx_spin_map and \\\n                            spin == target_idx_spin_map[idx]:"},
+ {"id": "c15-combine-clash", "prop": "C15", "file": _SO, "old": "                if idx_map[\"a\"] & addition[\"b\"] or \\\n                        idx_map[\"b\"] & addition[\"a\"]:\n                    continue", "new": "                if idx_map[\"a\"] & addition[\"b\"]:\n                    continue"},
+ {"id": "c15-eri-expansion", "prop": "C15", "file": "adcgen/expr_container.py", "old": "            if p.spin == s.spin and q.spin == r.spin:\n                res -= SymmetricTensor", "new": "            if p.spin == r.spin and q.spin == s.spin:\n                res -= SymmetricTensor"},
+]
+HARMLESS += [
+ # defensive guard: after spin integration every index name occurs with one spin only
+ {"id": "c15-h-restricted-collision", "prop": "C15", "file": _SO, "old": "            if new in idx:\n                raise RuntimeError(", "new": "            if False:\n                raise RuntimeError("},
+]
